@@ -5,6 +5,7 @@ use crate::common::{brief_bytes, Ctx, Tier};
 use crate::explore::par_for;
 use crate::refmodel::enc::Sym;
 use crate::refmodel::lzma2::{self, chunks_str, Chunk, V2};
+use crate::refmodel::xz::{self, XzFile};
 use serde_json::json;
 use std::sync::atomic::Ordering;
 use std::time::Instant;
@@ -39,6 +40,10 @@ fn bases(seed: u64, tier: Tier) -> Vec<Vec<Chunk>> {
         Chunk::C { class: 3, props: (0, 0, 0), prog: vec![Sym::L(5), Sym::M(1, 20)] },
     ]);
     v.push(vec![Chunk::U { reset: true, data: vec![0x55] }]);
+    // a compressed chunk that ends with a match, followed by compressed chunks of every class that keeps the dictionary
+    for class in 0..3u8 {
+        v.push(vec![c3((3, 0, 2), vec![Sym::L(0x61), Sym::L(0x62), Sym::L(0x63), Sym::M(3, 8)]), Chunk::C { class, props: (3, 0, 2), prog: vec![Sym::L(0x64), Sym::M(2, 4), Sym::L(0x65)] }]);
+    }
     // chunks producing exactly 65536 and 131072 bytes (16-bit size field 0xFFFF, control-byte size bits 0 / 1)
     for total in [65536usize, 131072] {
         let mut p = vec![Sym::L(0x37), Sym::L(0x38), Sym::L(0x39)];
@@ -207,6 +212,27 @@ pub fn run(tier: Tier) -> i32 {
                 }
             }
         }
+        // two coordinated size fields: a compressed chunk declares d bytes fewer than it produces and the next compressed
+        // chunk (same dictionary) declares d bytes more - the totals agree, each chunk is wrong
+        for ci in 0..w.layout.len().saturating_sub(1) {
+            let (la, lb) = (&w.layout[ci], &w.layout[ci + 1]);
+            if !(la.compressed && lb.compressed) || w.bytes[lb.control_off] >= 0xE0 {
+                continue;
+            }
+            for d in 1..=3i64 {
+                let (na, nb) = (la.unpacked as i64 - d, lb.unpacked as i64 + d);
+                if na < 1 || nb > (1 << 21) {
+                    continue;
+                }
+                let mut m = w.bytes.clone();
+                for (l, nv) in [(la, na), (lb, nb)] {
+                    m[l.control_off] = (m[l.control_off] & 0xE0) | (((nv - 1) >> 16) & 0x1F) as u8;
+                    m[l.unpacked_off] = ((nv - 1) >> 8) as u8;
+                    m[l.unpacked_off + 1] = (nv - 1) as u8;
+                }
+                mutants.push((format!("chunk {} declared uncompressed size {} := {} and chunk {} {} := {}", ci, la.unpacked, na, ci + 1, lb.unpacked, nb), m));
+            }
+        }
         for cut in 0..w.bytes.len() {
             mutants.push((format!("truncated to {} of {} bytes", cut, w.bytes.len()), w.bytes[..cut].to_vec()));
         }
@@ -280,6 +306,24 @@ pub fn run(tier: Tier) -> i32 {
             if !v.is_err() {
                 let case = Case::Dec { fmt: Fmt::Lzma2, opts: Opts::default(), input: Hex(m.clone()), rd: Rd::default(), sk: Sk::default() };
                 ctx.violation(&case, &format!("base [{}], {}: malformed ({}) => Err", chunks_str(cs), what, reason), &obs_of(v, out, consumed), Some(&format!("C17:{}", listed.iter().find(|k| reason.contains(*k)).unwrap())));
+                continue;
+            }
+            // the same malformed stream as the SECOND stage of an .xz block with two chained LZMA2 filters (the first stage
+            // stores it): lzma-rs decodes such chains; however many bytes the block claims to hold (every count is tried,
+            // no check field), the malformed stage must surface as an error. Small streams only.
+            if !m.is_empty() && m.len() <= 48 && w.expect.len() <= 40 {
+                let outer = lzma2::write(&[Chunk::U { reset: true, data: m.clone() }]).bytes;
+                for p in 0..=w.expect.len() + 2 {
+                    let f = XzFile { check_id: 0, blocks: vec![xz::Block { payload: outer.clone(), plain: vec![0u8; p], o_filters: Some(vec![(xz::mbi(0x21), xz::mbi(1), vec![0x16u8]), (xz::mbi(0x21), xz::mbi(1), vec![0x16u8])]), ..Default::default() }], ..Default::default() };
+                    let (bytes, _) = xz::build(&f);
+                    let (v, out, consumed) = dec_plain(Fmt::Xz, &Opts::default(), &bytes);
+                    ctx.eval(1);
+                    if !v.is_err() {
+                        let case = Case::Dec { fmt: Fmt::Xz, opts: Opts::default(), input: Hex(bytes), rd: Rd::default(), sk: Sk::default() };
+                        ctx.violation(&case, &format!("base [{}], {}: malformed ({}); as the second of two chained LZMA2 filters of an .xz block that claims {} bytes => Err", chunks_str(cs), what, reason, p), &obs_of(v, out, consumed), None);
+                        break;
+                    }
+                }
             }
         }
         if bi % 9 == 0 {
